@@ -1,5 +1,5 @@
 import Mdns.Lemmas.Sched
-import Mdns.Lemmas.ClientHostComplete
+import Mdns.Lemmas.ClientTimers
 import Mdns.Props.C03
 import Mdns.Props.C04
 /-
@@ -124,16 +124,16 @@ theorem group_sound (hist : List Delivery) (T now : Nat) (c : Cache) (hc : Cache
     · left; omega
     · right; omega
 
-/-- **hfound_sound (one iteration).**  From a cache justified by the deliveries `hist` whose
-    entries had not expired at `T`, and a resolver table that stems from the commands `cmds0`:
-    every `AddressesFound` of the iteration is as `HFoundFrom` says. -/
-theorem hfound_sound_iter (hist : List Delivery) (cmds0 : List Command) (T : Nat) (s : State) (now : Nat)
+/-- **hfound_sound (one iteration), general form**: from a cache justified by the deliveries
+    `hist` whose entries respect the expiry floor (`Floor T now`: not expired at `T`, or not
+    expiring before `now`), and a resolver table that stems from the commands `cmds0`, every
+    `AddressesFound` of the iteration is as `HFoundFrom` says. -/
+theorem hfound_sound_floor (hist : List Delivery) (cmds0 : List Command) (T : Nat) (s : State) (now : Nat)
     (pkts : List Packet) (cmds : List Command) (hc : CacheProv hist s.cache)
-    (hl : CacheAll (fun e => T < e.record.expires) s.cache) (hr : ResolversFrom cmds0 s.resolvers)
+    (hfl : CacheAll (Floor T now) s.cache) (hr : ResolversFrom cmds0 s.resolvers)
     (ch : Nat) (host : BList) (addrs : List AddrItem)
     (hm : Out.event ch (.hfound host addrs) ∈ (iter s now pkts cmds).2) :
     HFoundFrom (hist ++ deliveries s now pkts) (cmds0 ++ cmds) T now ch host addrs := by
-  have hfl : CacheAll (Floor T now) s.cache := hl.mono fun e he => Or.inl he
   rcases hfound_iter s now pkts cmds ch host addrs hm with ⟨pre, p, post, name, hp, hch, hg⟩ | ⟨pre, h0, t, post, hp, hg⟩
   · -- assembled in `handle_response`
     have hprov := (ok_ingress now (pre ++ [p]) hist s hc).1
@@ -155,6 +155,17 @@ theorem hfound_sound_iter (hist : List Delivery) (cmds0 : List Command) (T : Nat
     have hfloor := floor_runCommands T now pre _ (floor_preCommands T now s pkts hfl)
     obtain ⟨hlow, haddr⟩ := group_sound _ T now _ hprov hfloor h0 host addrs hg
     refine ⟨⟨h0, t, List.mem_append_right _ (by rw [hp]; simp), hlow.symm⟩, haddr⟩
+
+/-- **hfound_sound (one iteration).**  From a cache justified by the deliveries `hist` whose
+    entries had not expired at `T`, and a resolver table that stems from the commands `cmds0`:
+    every `AddressesFound` of the iteration is as `HFoundFrom` says. -/
+theorem hfound_sound_iter (hist : List Delivery) (cmds0 : List Command) (T : Nat) (s : State) (now : Nat)
+    (pkts : List Packet) (cmds : List Command) (hc : CacheProv hist s.cache)
+    (hl : CacheAll (fun e => T < e.record.expires) s.cache) (hr : ResolversFrom cmds0 s.resolvers)
+    (ch : Nat) (host : BList) (addrs : List AddrItem)
+    (hm : Out.event ch (.hfound host addrs) ∈ (iter s now pkts cmds).2) :
+    HFoundFrom (hist ++ deliveries s now pkts) (cmds0 ++ cmds) T now ch host addrs :=
+  hfound_sound_floor hist cmds0 T s now pkts cmds hc (hl.mono fun e he => Or.inl he) hr ch host addrs hm
 
 /-- **hfound_sound (whole histories).**  Start the daemon and run ANY history `pre`, then one
     more iteration: every `AddressesFound(host, addrs)` it emits on a channel `ch` answers a
@@ -545,14 +556,8 @@ theorem refresh_timer_armed (q : List (BList × Nat)) (ifName : BList) (ifIdx no
     (r : Wire.Rec) (e : Entry) (b : Bool)
     (h : (addOrUpdate acc.cache ifName ifIdx (ofWire ifName ifIdx now r) now forUs).result = some (e, b)) :
     e.record.expires ∈ (ingestOne q ifName ifIdx now forUs acc r).timers ∧
-    e.record.refresh ∈ (ingestOne q ifName ifIdx now forUs acc r).timers := by
-  unfold ingestOne
-  simp only [h]
-  cases b
-  · simp
-  · simp only []
-    repeat' split
-    all_goals simp
+    e.record.refresh ∈ (ingestOne q ifName ifIdx now forUs acc r).timers :=
+  ingestOne_arms_result q ifName ifIdx now forUs acc r e b h
 
 /-! ### non-vacuity: a search with a time-out, an answer in another letter case, expiry -/
 
